@@ -157,6 +157,13 @@ def execute(scn):
                     viols.append({'tag': 'not-the-darwin-name', 'sig': '%s=%d' % (kind, num),
                                   'detail': '%s %s on host %s renders %r; Darwin calls %d %s' % (name, label, h, v, num, '/'.join(spot[num]))})
                     break
+        if kind == 'errno' and num != 0 and num not in hostmod.DARWIN_ERRNO:
+            import re
+            for h, v in comparable.items():
+                if isinstance(v, str) and re.search(r'errno: [A-Z][A-Z0-9]+\(', v):
+                    viols.append({'tag': 'not-the-darwin-name', 'sig': 'errno-outside-table',
+                                  'detail': '%s %s on host %s renders %r; Darwin defines no errno %d' % (name, label, h, v, num)})
+                    break
         if kind == 'level' and num == 0xffff:
             for h, v in comparable.items():
                 if isinstance(v, str) and 'SOL_SOCKET' not in v:
